@@ -1,7 +1,11 @@
 /- Model driver for C02: the `Float` instantiation of `FinVerif.Model.C02`.
-   Floats cross as IEEE bit patterns, integers (enum values, counts, day offsets) as decimal text. -/
+   Floats cross as IEEE bit patterns, integers (enum values, counts, day offsets) as decimal text.
+   Growth round: `GNS` / `GNSS` / `GZ2D` run the GENERATED Float kernels (`Gen/CurvesF`), `ZRV` the zero-rate view,
+   `BUMP w k …` entry `k` of array `w` (0 self._times, 1 self._dfs after the call; 2 / 3 the returned curve's). -/
 import FinVerif.Driver.Util
 import FinVerif.Model.C02
+import FinVerif.Model.C02Ext
+import FinVerif.Gen.CurvesF
 open FinVerif FinVerif.Driver FinVerif.Model.C02
 
 def sf : Except PyErr Float → String := showExcept showFloat
@@ -137,6 +141,30 @@ def step (tk : List String) : String :=
       | some (fl, []) => showFloat (swapRate s (pairs fl))
       | _ => "bad-op"
     | _, _ => "bad-op"
+  | ["GNS", b0, b1, b2, tau, t] => match floats? [b0, b1, b2, tau, t] with
+    | some [b0, b1, b2, tau, t] => showFloat (FinVerif.Gen.CurvesF.ns_zero_rate t b0 b1 b2 tau)
+    | _ => "bad-op"
+  | ["GNSS", b0, b1, b2, b3, tau1, tau2, t] => match floats? [b0, b1, b2, b3, tau1, tau2, t] with
+    | some [b0, b1, b2, b3, tau1, tau2, t] => showFloat (FinVerif.Gen.CurvesF.nss_zero_rate t b0 b1 b2 b3 tau1 tau2)
+    | _ => "bad-op"
+  | ["GZ2D", f, r, t, fin] => match int? f, floats? [r, t, fin] with
+    | some f, some [r, t, fin] => sf (FinVerif.Gen.CurvesF.zero_to_df r t f fin)
+    | _, _ => "bad-op"
+  | ["ZRV", fc, fa, r, tc, ta] => match int? fc, int? fa, floats? [r, tc, ta] with
+    | some fc, some fa, some [r, tc, ta] => sf (zeroRateView fc fa r tc ta)
+    | _, _, _ => "bad-op"
+  | "BUMP" :: w :: k :: b :: onv :: n :: rest =>
+    match natOf w, natOf k, float? b, int? onv, natOf n with
+    | some w, some k, some b, some onv, some n =>
+      match takeF n rest with
+      | some (ts, r1) => match takeF n r1 with
+        | some (vs, []) =>
+          let r := bumpCurve b (decide (onv = 1)) ts vs
+          let l := if w = 0 then r.selfTimes else if w = 1 then r.selfDfs else if w = 2 then r.newTimes else r.newDfs
+          if k < l.length then showFloat (g l k) else "E:IndexError"
+        | _ => "bad-op"
+      | none => "bad-op"
+    | _, _, _, _, _ => "bad-op"
   | _ => "bad-op"
 
 def main : IO Unit := loop step
